@@ -35,9 +35,9 @@ def draw_case(data, tier):
     s = data.draw(st.integers(0, 3), label="s")
     extra = data.draw(st.integers(0, 4), label="extra") if data.draw(st.integers(0, 7), label="long_T") else data.draw(st.integers(5, 24), label="extra_long")
     T = s + (p + f - 1) * dt + 1 + extra
-    down = data.draw(st.sampled_from([0, 0, 1]), label="downsample")
+    down = data.draw(st.sampled_from([0, 0, 0, 1, 1, 2]), label="downsample")
     if down:
-        shape = [2 * data.draw(st.integers(1, 2)), 2 * data.draw(st.integers(1, 2))]
+        shape = [2**down * data.draw(st.integers(1, 2)), 2**down * data.draw(st.integers(1, 2))]
     else:
         shape = [data.draw(st.integers(1, 3)), data.draw(st.integers(1, 3))]
     dyn = gen.draw_signature(data, 2, kmax=1, min_types=1, max_types=3, cmax=3)
